@@ -15,6 +15,7 @@ From Iso Require Import Spec.Cal Model.Num Model.Helpers Model.Duration Model.Ti
   Model.Parse Spec.FormText Proofs.MatchSpec gen.Grammar Model.DriverText gen.GenCode8 Proofs.GenCode8Ok.
 Import ListNotations.
 Local Open Scope string_scope.
+Local Open Scope list_scope.
 
 (* every entry point was inside the translated subset on this run *)
 Theorem C07_code_translator_ok : translator_ok_code8 = true.
@@ -61,6 +62,75 @@ Theorem C07_code_get_date_info : forall md cfg dfs tfs zfs dfmt s (reduced_bad :
   | None => Raise ISO8601SyntaxError end.
 Proof. exact gen8_get_date_info. Qed.
 Print Assumptions C07_code_get_date_info.
+
+(* _create_timepoint_from_info, cut at its two top-level loops (the translator
+   makes the code from each loop on a definition of its own: ..__L1, ..__L2).
+
+   Segment L1 = the loop `date_info[key] = int(value)` + info.update(date_info):
+   on any dictionary without repeated keys it maps int() over the values (a
+   value int() refuses stays) and enters L2 with that dictionary as `info`. *)
+Theorem C07_code_create_L1 : forall ops self D' fmtv dur yp TI tfv TP, NoDup (keys D') ->
+  py__create_timepoint_from_info__L1 ops self (VDict D') fmtv (VDict []) dur yp TI tfv TP =
+  py__create_timepoint_from_info__L2 ops self (VDict (mapv (fun _ => iconv) D')) fmtv
+    (VDict (dict_update [] (mapv (fun _ => iconv) D'))) dur yp TI tfv TP.
+Proof. exact gen8_L1. Qed.
+Print Assumptions C07_code_create_L1.
+
+(* Segment L2 = the float() loop over time_info (with the "0." prefix of the
+   decimal groups and the Z -> (0, 0) rule), info.update(time_info), the
+   truncated flag, truncated_property, the dump formats (argument, then the
+   parser's own), and the TimePoint( **info, is_duration=..) call.  For every
+   `info` holding the date arguments as ints, every time binding list te whose
+   numeric groups are digit strings and every zone zinfo z of the model:
+   the outcome is the model's constructor call on the numbers nq / ndec of
+   MatchSpec.point_num, zone zn_val z = zn_of z. *)
+Theorem C07_code_create_L2 : forall md cfg dfs tfs zfs dfmt Dany fmt I dur yp te z tfmt tp
+    (yr mo dom doy wk dow nedo : option Z) (trI : bool),
+  keysP DATE_OUT I ->
+  dict_get "year" I = option_map VInt yr -> dict_get "month_of_year" I = option_map VInt mo ->
+  dict_get "day_of_month" I = option_map VInt dom -> dict_get "day_of_year" I = option_map VInt doy ->
+  dict_get "week_of_year" I = option_map VInt wk -> dict_get "day_of_week" I = option_map VInt dow ->
+  dict_get "num_expanded_year_digits" I = option_map VInt nedo ->
+  truthy_opt (dict_get "truncated" I) = trI ->
+  NoDup (map fst te) -> (forall k, lookup_env k te <> None -> mem k TIME_IN = true) ->
+  digit_env TIME_KEYS te -> trunc_time_ok te -> zdigits z ->
+  res_of (py__create_timepoint_from_info__L2 (mops md cfg) (self_of cfg dfs tfs zfs dfmt) Dany (ostr_val fmt)
+            (VDict I) (VBool dur) yp (VDict (zenv te ++ zdict z)) (ostr_val tfmt) (tprop_val tp)) =
+  construct md yr mo dom doy wk dow
+    (nq te "hour_of_day") (ndec te "hour_of_day_decimal") (nq te "minute_of_hour") (ndec te "minute_of_hour_decimal")
+    (nq te "second_of_minute") (ndec te "second_of_minute_decimal")
+    (zn_val z) (trI || has_key "truncated" te) tp (od nedo) (fmt_eff fmt dfmt) dur.
+Proof. exact gen8_L2. Qed.
+Print Assumptions C07_code_create_L2.
+
+Theorem C07_code_zone_args : forall z, zdigits z -> zn_of z = POk (zn_val z).
+Proof. exact zn_of_digits. Qed.
+Print Assumptions C07_code_zone_args.
+
+(* L1 + L2: from the state in which the first loop is entered (date values
+   still the captured digit strings, or ints) to the model's constructor call.
+   CUT: the code before the first loop (py__create_timepoint_from_info proper:
+   truncated_property, is_year_present, the century / year-of-century /
+   expanded-year arithmetic and the sign) is translated but not yet proved to
+   reach this state with m_yr / m_tprop / m_trunc1 / m_ned (GenCode8Ok.v
+   section 5, notes/GENCODE8_REPORT.md section 6). *)
+Theorem C07_code_create_from_first_loop_cut : forall md cfg dfs tfs zfs dfmt fmt D' dur yp te z tfmt tp
+    (yr mo dom doy wk dow nedo : option Z),
+  NoDup (keys D') -> keysP DATE_OUT D' ->
+  ival (dict_get "year" D') = Some yr -> ival (dict_get "month_of_year" D') = Some mo ->
+  ival (dict_get "day_of_month" D') = Some dom -> ival (dict_get "day_of_year" D') = Some doy ->
+  ival (dict_get "week_of_year" D') = Some wk -> ival (dict_get "day_of_week" D') = Some dow ->
+  ival (dict_get "num_expanded_year_digits" D') = Some nedo -> dtrunc_ok (dict_get "truncated" D') ->
+  NoDup (map fst te) -> (forall k, lookup_env k te <> None -> mem k TIME_IN = true) ->
+  digit_env TIME_KEYS te -> trunc_time_ok te -> zdigits z ->
+  res_of (py__create_timepoint_from_info__L1 (mops md cfg) (self_of cfg dfs tfs zfs dfmt) (VDict D') (ostr_val fmt)
+            (VDict []) (VBool dur) yp (VDict (zenv te ++ zdict z)) (ostr_val tfmt) (tprop_val tp)) =
+  construct md yr mo dom doy wk dow
+    (nq te "hour_of_day") (ndec te "hour_of_day_decimal") (nq te "minute_of_hour") (ndec te "minute_of_hour_decimal")
+    (nq te "second_of_minute") (ndec te "second_of_minute_decimal")
+    (zn_val z) (truthy_opt (dict_get "truncated" D') || has_key "truncated" te) tp (od nedo) (fmt_eff fmt dfmt) dur.
+Proof. exact gen8_create_tail. Qed.
+Print Assumptions C07_code_create_from_first_loop_cut.
 
 (* the hypothesis types_ok holds of the tables generated on this run *)
 Theorem C07_code_tables_types_ok :
